@@ -93,9 +93,29 @@ func (rt *runtime) newBoundFunctionObject(target *object, this Value, argumentLi
 	}
 	o.defineProperty("name", stringValue("bound "+target.get("name").String()), 0o000, false)
 	o.defineProperty(propertyLength, intValue(length), 0o000, false)
-	o.defineProperty("caller", Value{}, 0o000, false)    // TODO Should throw a TypeError
-	o.defineProperty("arguments", Value{}, 0o000, false) // TODO Should throw a TypeError
+	// 15.3.4.5 steps 20-21: accessors whose [[Get]] and [[Set]] are [[ThrowTypeError]].
+	thrower := rt.throwTypeErrorFunction()
+	for _, name := range []string{"caller", "arguments"} {
+		o.defineOwnProperty(name, property{
+			value: propertyGetSet{thrower, thrower},
+			mode:  0o000,
+		}, false)
+	}
 	return o
+}
+
+// throwTypeErrorFunction returns the [[ThrowTypeError]] function object (13.2.3)
+// of the runtime: it is created once, on first use.
+func (rt *runtime) throwTypeErrorFunction() *object {
+	if rt.thrower == nil {
+		o := rt.newNativeFunctionProperty("", "internal", 0, func(call FunctionCall) Value {
+			panic(call.runtime.panicTypeError("'caller' and 'arguments' may not be accessed on a bound function"))
+		}, 0)
+		o.prototype = rt.global.FunctionPrototype
+		o.extensible = false
+		rt.thrower = o
+	}
+	return rt.thrower
 }
 
 // [[Construct]].
